@@ -320,6 +320,11 @@ func max0(i int) int {
 	return i
 }
 
+// c09Features are option settings that are each valid on their own.
+var c09Features = []string{"-normalize", "-base=base.pb.gz", "-diff_base=base.pb.gz", "-base=prof.pb.gz", "-mean", "-relative_percentages", "-call_tree", "-tagroot=k", "-tagleaf=tenant", "-trim=false",
+	"-nodecount=2", "-nodefraction=0.3", "-edgefraction=0.5", "-focus=main", "-ignore=foo", "-hide=bar", "-show=main|foo", "-show_from=foo", "-prune_from=bar", "-tagfocus=v1", "-tagignore=v2", "-tagshow=k", "-taghide=tenant",
+	"-sample_index=1", "-sample_index=0", "-drop_negative", "-noinlines", "-lines", "-files", "-addresses", "-filefunctions", "-divide_by=2", "-unit=ms", "-compact_labels", "-showcolumns", "-cum", "-symbolize=none", "-symbolize=local", "-add_comment=note"}
+
 func c09CommandLine(x *xctx) *violation {
 	t := x.t
 	K := simrt.KGen
@@ -327,6 +332,15 @@ func c09CommandLine(x *xctx) *violation {
 	sw := genC09Swarm(t)
 	var args []string
 	n := t.Choose(K, 5)
+	if t.Bool(K, 25) {
+		// feature interactions: two to four features with values that are valid
+		// on their own, so that the run gets past option parsing and the
+		// features meet each other in the fetch and report code
+		n = 0
+		for i, nf := 0, 2+t.Choose(K, 3); i < nf; i++ {
+			args = append(args, c09Features[t.Choose(K, len(c09Features))])
+		}
+	}
 	for i := 0; i < n; i++ {
 		o := c09Options[t.Choose(K, len(c09Options))]
 		switch t.Choose(K, 3) {
@@ -508,6 +522,28 @@ func c09BaseProfile(t *simrt.Tape, prof []byte) (out []byte) {
 			if k < len(mult) {
 				s.Value[k] *= mult[k]
 			}
+		}
+	}
+	// The base may have been taken with another set of sample types: one more
+	// than the source, or one fewer.
+	switch t.Choose(simrt.KGen, 6) {
+	case 0:
+		p.SampleType = append(p.SampleType, &profile.ValueType{Type: "extra", Unit: "count"})
+		for _, s := range p.Sample {
+			s.Value = append(s.Value, 3)
+		}
+	case 1:
+		if n := len(p.SampleType); n > 1 {
+			p.SampleType = p.SampleType[:n-1]
+			for _, s := range p.Sample {
+				s.Value = s.Value[:n-1]
+			}
+		}
+	case 2:
+		// ... or prepended, so that positions no longer correspond
+		p.SampleType = append([]*profile.ValueType{{Type: "extra", Unit: "count"}}, p.SampleType...)
+		for _, s := range p.Sample {
+			s.Value = append([]int64{3}, s.Value...)
 		}
 	}
 	var buf bytes.Buffer
